@@ -957,3 +957,8 @@ Definition first_ext_lazy (r : Res RFile) : option bool :=
 Theorem builders_disagree_extension_lazy :
   exists p, first_ext_lazy (new_file idc [] p) = Some false /\ first_ext_lazy (fd_build idc [] p) = Some true.
 Proof. exists fk2_file. vm_compute. split; reflexivity. Qed.
+
+(* FK4 witness: an editions file that says LABEL_REQUIRED the proto2 way *)
+Definition fk4_file : FileP :=
+  mk_file "fk4.proto" "c" (Some "editions") (Some 1000)
+    [mk_msg "M" [mk_field "r" 1 2 5 None None] [] []] [] [].
